@@ -102,9 +102,13 @@ package data
 
 // Conversion: a value that already is Soy data is returned unchanged, so
 // converting twice changes nothing (the result type is data.Value); nil is Null.
+// C08 / C09: conversion reads the caller's data and builds new values; maps and
+// lists that exist already (Soy data handed in, at any depth) are left as they are.
 //@ func NewWith
-//@   props C20
+//@   props C20 C08 C09
 //@   nosafety
+//@   modifies *
+//@   preserves M!* MD!* ML E!Iface
 //@   ensures[idempotent] implements(value, Value) ==> result == value
 //@   ensures[nil-is-null] !implements(value, Value) && value == nil ==> typeis(result, Null)
 //@   ghost iv int64 = 0
@@ -135,9 +139,10 @@ package data
 // field name is lower-cased (a field may start with a non-ASCII letter), the
 // rest of the name is kept from the end of that rune.
 //@ func StructOptions.Data
-//@   props C20
+//@   props C20 C08 C09
 //@   nosafety
 //@   modifies *
+//@   preserves M!* MD!* ML E!Iface
 //@   ghost fr rune = 0
 //@   ghost sz int = 0
 //@   at call utf8.DecodeRuneInString#0 assert[first-rune-of-the-field-name;C20] same(arg0, key)
